@@ -511,7 +511,10 @@ func fdFilestatSetTimesFn(_ context.Context, mod api.Module, params []uint64) ex
 	// Fall back to path based, despite it being less precise.
 	switch errno {
 	case experimentalsys.EPERM, experimentalsys.ENOSYS:
-		errno = f.FS.Utimens(f.Name, atim, mtim)
+		// Entries such as stdio or sockets have no file system to fall back to.
+		if f.FS != nil {
+			errno = f.FS.Utimens(f.Name, atim, mtim)
+		}
 	}
 
 	return errno
